@@ -251,16 +251,19 @@ pub struct BiasedStream {
     inner: <XofTurboShake128 as Xof<32>>::SeedStream,
     block: [u8; 32],
     used: usize,
+    index: u64,
 }
 
 impl BiasedStream {
     fn refill(&mut self) {
         use rand_core::Rng;
         self.inner.fill_bytes(&mut self.block);
-        // 1/4 of the blocks become all-ones
-        if self.block[0] < 64 {
+        // 1/4 of the blocks after the first become all-ones (the first block stays intact so that
+        // derived seeds remain collision-free: robustness properties rely on that)
+        if self.index >= 1 && self.block[0] < 64 {
             self.block = [0xFF; 32];
         }
+        self.index += 1;
         self.used = 0;
     }
 }
@@ -302,6 +305,7 @@ impl Xof<32> for BiasedXof {
             inner: self.0.into_seed_stream(),
             block: [0; 32],
             used: 32,
+            index: 0,
         }
     }
 }
